@@ -129,6 +129,16 @@ def int_attr(interp, x, name):
         return 1
     if name == "__class__":
         return class_of(x)
+    if name == "value" and isinstance(x, SInt) and x.pycls is not None:
+        return SInt(x.e)
+    if isinstance(x, SInt) and x.pycls is not None:
+        a, where = interp.raw_lookup(x.pycls, name)
+        if isinstance(a, classmethod):
+            return BoundMethod(a.__func__, x.pycls)
+        if isinstance(a, types.FunctionType):
+            return BoundMethod(a, x)
+        if isinstance(a, property) and isinstance(a.fget, types.FunctionType) and interp.is_repo_function(a.fget):
+            return interp.call(a.fget, (x,), {})
     return None
 
 
@@ -732,7 +742,7 @@ def b_int(interp, *args, **kwargs):
             raise Unsupported("int(text, base) on symbolic text")
         return interp.native(int, *args, **kwargs)
     if isinstance(v, SInt):
-        return v
+        return SInt(v.e) if v.pycls is not None else v
     if isinstance(v, SBool):
         return SInt(to_bv(v))
     if isinstance(v, bool):
@@ -1231,16 +1241,13 @@ def enum_call(interp, cls, *args, **kwargs):
         allbits = 0
         for m in cls:
             allbits |= m.value
-        if issubclass(cls, enum.IntFlag) and boundary is enum.FlagBoundary.KEEP:
-            if interp.test(v < 0):
-                raise Unsupported("negative IntFlag value")
-            return FlagValue(cls, v)
-        if interp.test(And(v >= 0, (v & ~allbits) == 0)):
-            return FlagValue(cls, v)
         if issubclass(cls, enum.IntFlag):
+            # IntFlag (boundary KEEP): every int is accepted and keeps its value
             if interp.test(v < 0):
                 raise Unsupported("negative IntFlag value")
-            return FlagValue(cls, v)
+            return SInt(to_bv(v), pycls=cls)
+        if interp.test(And(v >= 0, (v & ~allbits) == 0)):
+            return SInt(to_bv(v), pycls=cls)
         interp.py_raise(ValueError, "invalid value for %s" % cls.__name__)
     for m in cls:
         if isinstance(m.value, int) and interp.test(v == m.value):
